@@ -1,6 +1,7 @@
 package main
 
 import (
+	"runtime"
 	"fmt"
 	"go/ast"
 	"go/printer"
@@ -154,6 +155,13 @@ func (c *FnCtx) execStmt(s ast.Stmt, st *State) (outs []Out) {
 		if r := recover(); r != nil {
 			if u, ok := r.(unsupportedErr); ok {
 				c.unsupported(token.NoPos, "%s", u.msg)
+				outs = nil
+				return
+			}
+			if re, ok := r.(runtime.Error); ok {
+				// a construct the symbolic executor does not handle must never take the whole check down: the function
+				// is reported as outside the supported subset (UNDECIDED), the witness family is searched instead
+				c.unsupported(s.Pos(), "construct not handled by the symbolic executor (%v)", re)
 				outs = nil
 				return
 			}
